@@ -105,7 +105,10 @@ def rand_shape(rng, nest):
         if rng.random() < 0.3:
             undeclared.append('u%d' % lv)
         redecl = bool(levels and levels[-1]['decl'] and rng.random() < 0.2)
-        levels.append({'decl': decl if decorated else [], 'pending': [] if decorated else decl, 'redecl': redecl, 'undeclared': undeclared})
+        # a decorated level may instead declare its members from the ``persist()`` class hook (``cls.auto_persist(...)``)
+        hook = bool(decorated and decl and rng.random() < 0.3)
+        levels.append({'decl': decl if decorated else [], 'pending': [] if decorated else decl, 'redecl': redecl and not hook, 'undeclared': undeclared,
+                       'hook': hook})
         if not decorated:
             for name in decl:
                 members.pop(name)
@@ -139,7 +142,13 @@ def build_class(shape):
         decl = list(level['decl'])
         if level['redecl'] and chain:
             decl = decl + chain[-1][1][:1]  # re-declare an inherited member
-        if decl or level['decl']:
+        if level.get('hook'):
+            def persist(kls, _cls=cls, _decl=tuple(decl)):
+                super(_cls, kls).persist()
+                kls.auto_persist(*_decl)
+
+            cls.persist = classmethod(persist)
+        elif decl or level['decl']:
             cls = auto_persist(*decl)(cls)
         chain.append((cls, list(level['decl'])))
         base = cls
@@ -281,7 +290,11 @@ def run_case(case):
     kinds = set(v[0] for v in shape['members'].values())
     # inheritance of declarations: every level's set contains the parents', never the children's
     seen = set()
+    hooked = any(level.get('hook') for level in shape['levels'])
+    obs['hook_declared'] = int(hooked)
     for c, decl in chain:
+        if hooked:
+            break  # declarations made from the persist() hook exist only once an instance was saved or loaded: judged below
         seen |= set(decl)
         got = set(c._auto_persist or ())
         obs['inherited_checks'] += 1
@@ -297,6 +310,8 @@ def run_case(case):
             loaders.set_object_loader(CountingLoader())
         elif mode == 'persave':
             save_ctx = persistence.LoadSaveContext(loader=CountingLoader())
+        if hooked and case['i'] % 2:
+            _ancestor_saves(chain, shape, viol, obs, V, 'before')  # instances of the base classes are saved first
         obj = cls(shape['members'])
         try:
             state = obj.save(save_ctx)
@@ -356,6 +371,8 @@ def run_case(case):
             viol.append(V('wrong-class', 'wrong-class', 'recreated a %s, expected %s' % (type(new).__name__, cls.__name__)))
             return _res(case, viol, obs, kinds)
         compare(shape, new, 'obj', obs, viol, V)
+        if hooked:
+            _ancestor_saves(chain, shape, viol, obs, V, 'after')
         # saved state of the copy equals the original's (taken before the mutation)
         try:
             state2 = new.save(save_ctx)
@@ -366,6 +383,24 @@ def run_case(case):
     finally:
         loaders.set_object_loader(None)
     return _res(case, viol, obs, kinds)
+
+
+def _ancestor_saves(chain, shape, viol, obs, V, when):
+    """An instance of every class of the chain saves exactly the members declared up to its level (whatever was saved before)."""
+    seen = set()
+    for c, decl in chain:
+        seen |= set(decl)
+        try:
+            saved = set(k for k in c(shape['members']).save() if k != persistence.META)
+        except BaseException as exc:  # noqa: BLE001
+            viol.append(V('ancestor-save-raised', 'ancestor-save-raised:%s:%s' % (type(exc).__name__, when), 'saving an instance of %s (%s the leaf class was '
+                          'used) raised %r; it declares %s' % (c.__name__, when, exc, sorted(seen))))
+            return
+        obs['ancestor_saves'] = obs.get('ancestor_saves', 0) + 1
+        if saved != seen:
+            viol.append(V('ancestor-save-differs', 'ancestor-save-differs:%s:%s' % ('lost' if seen - saved else 'leaked', when),
+                          'an instance of %s saved %s, the members declared up to its level are %s' % (c.__name__, sorted(saved), sorted(seen))))
+            return
 
 
 def _all_members(shape):
